@@ -977,6 +977,16 @@ static std::string steppedOp(const std::vector<std::string> &t)
   }
   else if (v == "hookfail" && t.size() > 2 && !S.udp) S.tcp->hookFail.push_back(t[2]);
   else if (v == "oncb" && t.size() > 3) S.nested.push_back({t[2][0], t[3], t.size() > 4 ? t[4] : ""});
+  else if (v == "restart")
+  {
+    // start() again on a drained engine (the real start() minus the thread); a running engine refuses ("already running")
+    if (S.drained && !S.eng()->isRunning())
+    {
+      if (S.udp) manualStart(*S.udpE); else manualStart(*S.tcp);
+      S.drained = false;
+      emitLine("apistart");
+    }
+  }
   else if (v == "end")
   {
     // orderly stop: stop() + loop iterations until the drain has run
@@ -1229,7 +1239,7 @@ static std::string scenario(const std::vector<std::string> &t)
     {
       t_harness = true;
       std::this_thread::sleep_for(milliseconds(stopMs > 2 ? stopMs - 2 : 0));
-      while (raceGo.load())
+      for (int it = 0; it < 300 && raceGo.load(); ++it)
       {
         auto cr = E->connect("127.0.0.1", (k % 2) ? closedPort : okPort, TlsMode::None);
         sc.add('R', cr.isOk() ? cr.value() : 0, cr.isOk() ? "1r" : "0r", -1);
